@@ -120,7 +120,13 @@ def layouts(tier):
         # numbers and numeric strings of the mixed column share a block (consolidated to numbers); rotated + open segment
         dict(name="two-seg", card=None, parts=[([0, 1, 2, 3, 4, 5], "rotate"), ([6, 7, 8, 9], "flush")]),
         dict(name="open-plain", card=1, parts=[(allrows, "flush")]),
+        # cardinality limit 10: the ten-valued id column is stored record by record, every other column (the text ones
+        # included) is dictionary encoded: the dictionary pre-pass AND the per-record pass of a filter both run
+        dict(name="open-mixenc", card=10, parts=[(allrows, "flush")]),
+        dict(name="rot-mixenc", card=10, parts=[(allrows, "rotate")]),
     ]
+    for l in ls:
+        l["enc"] = {None: "all-dict", 1: "plain", 10: "mixed-enc"}[l["card"]]
     return ls
 
 
@@ -236,6 +242,20 @@ def rel_eval(rel, res):
             return "`%s` on [%d,%d] got %s; the same filter on the whole range gave %s, of which %s lie in the range" % (
                 rel["q"][0], rel["q"][1], rel["q"][2], part, full, sorted(want))
         return None
+    if t == "negterm":
+        # NOT t / X NOT t / NOT (t OR u) against the REAL results of the positive queries and of `*`
+        u, got = R(rel["u"]), R(rel["res"])
+        pos = [R(q) for q in rel["neg"]]
+        base = R(rel["base"]) if rel.get("base") else u
+        if any(isinstance(x, str) for x in [u, got, base] + pos):
+            return "query error: %s" % [x for x in [u, got, base] + pos if isinstance(x, str)][0]
+        excluded = set().union(*[set(p) for p in pos])
+        want = set(base) - excluded
+        if set(got) != want:
+            return "got %s; %s returned %s and the negated term(s) %s returned %s, so the result must be %s (in both: %s, missing: %s)" % (
+                got, rel["base"][0] if rel.get("base") else "`*`", sorted(base), [q[0] for q in rel["neg"]], [sorted(p) for p in pos],
+                sorted(want), sorted(set(got) & excluded), sorted(want - set(got)))
+        return None
     raise vlib.Infra("unknown relation " + t)
 
 
@@ -324,6 +344,23 @@ def run(chk):
             qw = full("* | where " + leaf_text(lf))
             queries[qw] = 1
             rels.append((dict(type="equal-on", a=q, b=qw, ids=lc["numids"], must=lc["must"], may=lc["may"]), dict(kind="where", leaf=lf)))
+
+    # ---- negated free text: NOT t, X NOT t, NOT (t OR u) for every free-text leaf t (word, phrase, wildcard, a word that occurs nowhere)
+    terms = [lc["leaf"] for lc in leaves if lc["leaf"]["t"] == "term"]
+    cmpx = [lc["leaf"] for lc in leaves if lc["leaf"]["t"] == "cmp" and leaf_text(lc["leaf"]) in ("ci>=1", "ct=a*")]
+    for i, tl in enumerate(terms):
+        tq = full(leaf_text(tl))
+        others = [x for x in terms if x is not tl]
+        ul = others[(i * 7 + chk.seed) % len(others)]
+        xl = (cmpx + others)[(i + chk.seed) % (len(cmpx) + len(others))]
+        forms = [("not", "NOT %s" % tq[0], None, [tq]),
+                 ("and-not", "%s NOT %s" % (leaf_text(xl), tq[0]), full(leaf_text(xl)), [tq]),
+                 ("not-or", "NOT (%s OR %s)" % (tq[0], leaf_text(ul)), None, [tq, full(leaf_text(ul))])]
+        for form, text, base, neg in forms:
+            rq = full(text)
+            for q in [rq] + neg + ([base] if base else []):
+                queries[q] = 1
+            rels.append((dict(type="negterm", res=rq, u=UNI, base=base, neg=neg), dict(kind="negterm", form=form, term=tl)))
 
     # ---- composite expressions: every node is compared with the set algebra of its operands' REAL results
     exprs = vlib.dedup([x for x in gens["expr"] if x["kind"] == "expr"])
@@ -424,7 +461,7 @@ def run(chk):
         chk.replayed(1)
         for rel, info in rels:
             bad = rel_eval(rel, res)
-            nontrivial = info["kind"] in ("where", "algebra", "range") or (info["kind"] in ("leaf", "expr") and rel["must"] != rel["may"] or bool(rel.get("must")))
+            nontrivial = info["kind"] in ("where", "algebra", "range", "negterm") or (info["kind"] in ("leaf", "expr") and rel["must"] != rel["may"] or bool(rel.get("must")))
             chk.count((info["kind"], json.dumps(rel.get("q") or rel.get("res") or rel.get("a")), layout["name"]), nontrivial=nontrivial)
             if bad is None:
                 continue
@@ -457,6 +494,18 @@ def run(chk):
                 key = "C02:search-vs-where@%s:%s:%s~%s:%s" % (block_class(layout, ds_events, lf["col"], eid), side,
                                                              ds_events[eid]["f"][lf["col"]]["k"], lf["lit"]["lk"], opclass(lf["op"]))
                 report(key, "layout %s: `%s` %s" % (layout["name"], rel["a"][0], bad), rp)
+            elif k == "negterm":
+                if layout["enc"] == "all-dict":
+                    continue   # known finding RC7 (every column dictionary encoded) is reported by the algebra relations below
+                got = res[tuple(rel["res"])]
+                if isinstance(got, str):
+                    key = "C02:query-error:negated-free-text:%s" % info["form"]
+                else:
+                    excluded = set().union(*[set(res[tuple(q)]) for q in rel["neg"]])
+                    base = set(res[tuple(rel["base"])]) if rel.get("base") else set(res[tuple(rel["u"])])
+                    symptom = "overlaps-positive" if set(got) & excluded else "misses-complement" if (base - excluded) - set(got) else "invents"
+                    key = "C02:negated-free-text:%s:%s@%s" % (info["form"], symptom, layout["enc"])
+                report(key, "layout %s: `%s` %s" % (layout["name"], rel["res"][0], bad), rp)
             elif k == "algebra":
                 got, l, r, u = (res[tuple(rel[x])] for x in ("res", "l", "r", "u"))
                 if any(isinstance(x, str) for x in (got, l, r, u)):
@@ -474,6 +523,8 @@ def run(chk):
                         cls = "absent-field" if diff <= lacking else "open-or-defective-leaf" if diff <= sus else \
                             "negated-free-text" if has_term and "NOT" in rel["res"][0] else "plain"
                     key = "C02:algebra:%s:%s" % (info["op"], cls)
+                    if cls in ("free-text", "negated-free-text") and layout["enc"] != "all-dict":
+                        key += "@" + layout["enc"]     # the registered RC7 keys describe blocks whose columns are all dictionary encoded
                 report(key, "layout %s: `%s` %s" % (layout["name"], rel["res"][0], bad), rp)
             elif k == "range":
                 part, fullr, uni = res[tuple(rel["q"])], res[tuple(rel["full"])], res[tuple(rel["u"])]
@@ -491,6 +542,8 @@ def run(chk):
                 negterm = e["o"] == "not" and lfs[0]["t"] == "term"
                 key = "C02:time-range:%s:%s" % (pos, "match-all" if sorted(uni) != sorted(rel["universe"]) else
                                                 "negated-free-text" if negterm else "open-or-defective-leaf" if derived else "filter")
+                if negterm and sorted(uni) == sorted(rel["universe"]) and layout["enc"] != "all-dict":
+                    key += "@" + layout["enc"]
                 report(key, "layout %s: %s" % (layout["name"], bad), rp)
             # kind "expr" (bounds of a composite) is implied by leaf bounds + algebra; it is counted, not reported
 
@@ -560,9 +613,11 @@ def replay(chk, path):
     for layout in lays:
         qs = set()
         for rel in rp["relations"]:
-            for f in ("q", "a", "b", "res", "l", "r", "u", "full"):
-                if f in rel:
+            for f in ("q", "a", "b", "res", "l", "r", "u", "full", "base"):
+                if rel.get(f):
                     qs.add(tuple(rel[f]))
+            for q in rel.get("neg", []):
+                qs.add(tuple(q))
         layout["parts"] = [tuple(p) for p in layout["parts"]]
         res = run_layout(binary, layout, rp["events"], sorted(qs), rp["t0"])
         allres[layout["name"]] = res
